@@ -81,8 +81,11 @@ func (batch *Batch) close() (err error) {
 	batch.conn = nil
 	batch.lock = nil
 
+	// When the rest of the response cannot be discarded the connection is
+	// left in the middle of a frame and must not be used again.
+	var discardErr error
 	if batch.msgs != nil {
-		batch.msgs.discard()
+		discardErr = batch.msgs.discard()
 	}
 
 	if batch.msgs != nil && batch.msgs.decompressed != nil {
@@ -94,13 +97,19 @@ func (batch *Batch) close() (err error) {
 		err = nil
 	}
 
+	if err == nil {
+		err = discardErr
+	}
+
 	if conn != nil {
 		conn.rdeadline.unsetConnReadDeadline()
 		conn.mutex.Lock()
 		conn.offset = batch.offset
 		conn.mutex.Unlock()
 
-		if err != nil {
+		if discardErr != nil {
+			conn.Close()
+		} else if err != nil {
 			var kafkaError Error
 			if !errors.As(err, &kafkaError) && !errors.Is(err, io.ErrShortBuffer) {
 				conn.Close()
